@@ -91,6 +91,14 @@ static void Handle(const json& c, vh::Report& r) {
       else if (variant == 2) { (void)form->InsertCopy(std::vector<ConceptRecord>{ rec }); r.Count("insertcopy.bulk-records"); }
       else { (void)form->InsertCopy(rec); r.Count("insertcopy.record"); }
       renames = true; }
+    else if (o == "InsertBulk") {      // several records in one call, through either bulk overload
+      std::vector<ConceptRecord> recs; for (const auto& rj : op["rec"]) { recs.push_back(RecordOf(rj)); pool.insert(rj["uid"].get<EntityUID>()); }
+      std::vector<EntityUID> fr; for (EntityUID f = 91; f <= 96; ++f) { pool.insert(f); if (!form->Contains(f)) fr.push_back(f); }     // the identifier generator's next free values
+      auto donor = std::make_unique<RSForm>(); bool viaDonor = (c["hist"].size() + step) % 2 == 1;
+      if (viaDonor) { g_uids.clear(); VectorOfEntities ids; for (const auto& rec : recs) { const auto du = donor->InsertCopy(rec); if (du != rec.uid || donor->GetRS(du).alias != rec.alias) viaDonor = false; ids.push_back(du); }
+        if (viaDonor) { g_uids.assign(fr.begin(), fr.end()); (void)form->InsertCopy(ids, donor->Core()); r.Count("insertbulk.from-schema"); } }
+      if (!viaDonor) { g_uids.assign(fr.begin(), fr.end()); (void)form->InsertCopy(recs); r.Count("insertbulk.records"); }
+      renames = true; }
     else if (o == "Erase") { refusable = true; result = form->Erase(u); if (wasTracked && result) r.Violation("C09", "tracked constituent erased", wit, { {"step", step} }); }
     else if (o == "SetAlias") { refusable = true; result = form->SetAliasFor(u, op["a"].get<std::string>(), op["b"].get<bool>()); renames = true; }
     else if (o == "SetExpression") { refusable = true; result = form->SetExpressionFor(u, DefText(op["d"]));
